@@ -247,6 +247,46 @@ fn dec_event(class: &str, bytes: &[u8], intent: &[RV]) -> Value {
 
 const UNSUPPORTED: [u8; 16] = [4, 7, 11, 12, 13, 14, 15, 16, 17, 18, 0x20, 0x7F, 0x80, 0xC3, 0xFE, 0xFF];
 
+/// Stage S2 for AMF0: reference encodings printed by TLC from Gen_Amf0.tla (one JSON byte array per line).  Each is
+/// decoded by the real decoder (class ref), what came out is re-encoded by the real encoder (Enc), every strict prefix is
+/// decoded (class refcut, `full` = the whole encoding) and so are three bad-marker variants (class bad).
+pub fn generate_from_file(file: &str, shard: u64, nshards: u64, path: &str) -> Value {
+    quiet_panics();
+    let mut t = Trace::create(path);
+    let text = std::fs::read_to_string(file).expect("encodings file");
+    let mut cases = 0usize;
+    let mut n = 0usize;
+    for (i, line) in text.lines().enumerate() {
+        if line.trim().is_empty() || (i as u64) % nshards != shard {
+            continue;
+        }
+        let bytes: Vec<u8> = serde_json::from_str::<Vec<u64>>(line).expect("byte array").into_iter().map(|b| b as u8).collect();
+        n += 1;
+        let (res, vals, left) = lib_decode(&bytes);
+        t.emit(&json!({"ev":"Dec","class":"ref","bytes":segs(&bytes),"intent":[],"res":res,"vals":vals_json(&vals),"left":left}));
+        cases += 1;
+        if res == "ok" {
+            t.emit(&enc_event(&vals));
+            cases += 1;
+        }
+        for k in 0..bytes.len() {
+            let (res, vals, left) = lib_decode(&bytes[..k]);
+            t.emit(&json!({"ev":"Dec","class":"refcut","bytes":segs(&bytes[..k]),"full":segs(&bytes),"intent":[],"res":res,"vals":vals_json(&vals),"left":left}));
+            cases += 1;
+        }
+        if !bytes.is_empty() {
+            for m in [UNSUPPORTED[n % 16], UNSUPPORTED[(n / 16 + 5) % 16]].iter() {
+                let mut b = bytes.clone();
+                b[0] = *m;
+                t.emit(&dec_event("bad", &b, &[]));
+                cases += 1;
+            }
+        }
+    }
+    t.flush();
+    json!({"kind":"gen","encodings":n,"cases":cases,"runs":cases,"lines":t.line,"path":path})
+}
+
 pub fn generate(kind: &str, tier: &str, seed: u64, shard: u64, nshards: u64, path: &str) -> Value {
     quiet_panics();
     let mut t = Trace::create(path);
